@@ -70,6 +70,16 @@ fn integrand<D: DualNum<f64>>(xs: &[D], ops: &[PyOp]) -> D {
     acc
 }
 
+/// `integrand_prod3` of py/driver.py, operation for operation
+fn integrand_prod3<D: DualNum<f64>>(xs: &[D]) -> D {
+    let t = xs[1].clone() * xs[2].clone() + xs[0].clone();
+    let mut acc = (xs[0].clone() * xs[1].clone()) * (t.clone() * t);
+    for i in 3..xs.len() {
+        acc = acc * xs[i].clone() + xs[i - 1].clone();
+    }
+    acc
+}
+
 fn bits_of(v: &Value) -> Vec<f64> {
     v.as_array().unwrap().iter().map(|b| f64::from_bits(u64::from_str_radix(b.as_str().unwrap(), 16).unwrap())).collect()
 }
@@ -217,9 +227,13 @@ fn driver(ctx: &mut Ctx, t: &Value) {
             ctx.compare("seeds seen by the callable", &format!("driver gradient seeds n={n}"), &unit, &seeds, t);
         }
         "hessian" => {
+            let prod3 = t["variant"].as_str() == Some("prod3");
             macro_rules! h {
                 ($k:literal) => {{
-                    let (f, g, h) = hessian(|v: SVector<Dual2SVec64<$k>, $k>| integrand(v.as_slice(), &ops), SVector::<f64, $k>::from_column_slice(&x));
+                    let (f, g, h) = hessian(|v: SVector<Dual2SVec64<$k>, $k>| if prod3 { integrand_prod3(v.as_slice()) } else { integrand(v.as_slice(), &ops) }, SVector::<f64, $k>::from_column_slice(&x));
+                    if prod3 && (0..$k).any(|r| (0..$k).any(|c| h[(r, c)].to_bits() != h[(c, r)].to_bits())) {
+                        ctx.st.count("hessians_symmetric_only_up_to_rounding", 1);
+                    }
                     let mut o = vec![f];
                     o.extend(g.iter());
                     for r in 0..$k {
@@ -237,7 +251,7 @@ fn driver(ctx: &mut Ctx, t: &Value) {
                 }
                 None => {
                     expect_class = Some("Dual2_64Dyn");
-                    let (f, g, h) = hessian(|v: DVector<Dual2DVec64>| integrand(v.as_slice(), &ops), DVector::from_column_slice(&x));
+                    let (f, g, h) = hessian(|v: DVector<Dual2DVec64>| if prod3 { integrand_prod3(v.as_slice()) } else { integrand(v.as_slice(), &ops) }, DVector::from_column_slice(&x));
                     let mut o = vec![f];
                     o.extend(g.iter());
                     for r in 0..n {
